@@ -214,9 +214,12 @@ def run(ctx):
         X = rng.uniform(a, b, size=(m, d))
         y = (rng.normal(size=m) + 2.0 + X[:, 0]) * [1., 1e-6, 1e3, 1e-9][t % 4]      # the model is covariant under y -> s y
         lamb = float(rng.choice([1e-7, 1e-3, 1.]))
+        plain = t % 3 == 2
+        if plain:
+            lamb = 0.          # plain least squares (the design is well conditioned: 15+ random points, at most 5 basis functions)
         X0, y0 = X.copy(), y.copy()
         for rep in range(2):                      # a second fit on the same arrays must see the same data
-            A = teneva.anova_func(X, y, n, a, b, lamb=lamb, e=1e-12) if t % 2 == 0 else teneva.anova_func(X, y, n, a, b, lamb=lamb)
+            A = teneva.anova_func(X, y, n, a, b, lamb=lamb, e=1e-14 if plain else 1e-12) if (t % 2 == 0 or plain) else teneva.anova_func(X, y, n, a, b, lamb=lamb)
             Tm = np.polynomial.chebyshev.chebvander((2 * X0 - a - b) / (b - a), n - 1)      # m x d x n
             c0 = float(np.mean(y0))
             yc = y0 - c0
@@ -233,8 +236,9 @@ def run(ctx):
             if not ctx.check(F.is_wellformed(A, [n] * d), 'anova_func:wellformed', 'coefficient cores malformed'):
                 continue
             got = teneva.func_get(Xt, A, a, b)
-            ctx.check(np.abs(got - ref).max() <= (1e-6 if t % 2 == 0 else 1e-5) * np.abs(ref).max(), 'anova_func:model',
+            ctx.check(np.abs(got - ref).max() <= (1e-10 if plain else 1e-6 if t % 2 == 0 else 1e-5) * np.abs(ref).max(), 'anova_func:model',
                       'interpolant of the coefficient cores differs from constant + sum of fitted 1-D expansions by %.2e (fit #%d on the same arrays)' % (np.abs(got - ref).max(), rep + 1))
             cl = teneva.ANOVA_func(X, y, n, a, b, lamb).coeffs
-            ctx.check(abs(cl[0] - c0) <= 1e-8 * abs(c0) and all(np.abs(u - v).max() <= 1e-7 * (abs(c0) + np.abs(v).max()) for u, v in zip(cl[1:], cfs)),
-                      'ANOVA_func:coeffs', 'fitted coefficients differ from the ridge reference')
+            tc_ = 1e-3 if plain else 1.
+            ctx.check(abs(cl[0] - c0) <= 1e-8 * tc_ * abs(c0) and all(np.abs(u - v).max() <= 1e-7 * tc_ * (abs(c0) + np.abs(v).max()) for u, v in zip(cl[1:], cfs)),
+                      'ANOVA_func:coeffs', 'fitted coefficients differ from the %s reference (lamb = %g)' % ('least-squares' if plain else 'ridge', lamb))
